@@ -3,6 +3,7 @@
  * calls modelled: mmap returns a page-aligned arena, mprotect validates its
  * arguments and records a per-page protection, munmap validates the range.
  * Page size P (concrete, enumerated); requested size symbolic 0..3P+1. */
+#include <errno.h>
 #include <sys/mman.h>
 #include <unistd.h>
 #include <signal.h>
@@ -19,14 +20,15 @@
 static uint8_t arena[NPAGES * P] __attribute__((aligned(4096)));
 static int     prot[NPAGES];
 static size_t  mapped_len;
-static int     mapped, unmapped_ok, abort_expected, mlocked;
+static int     mapped, unmapped_ok, abort_expected, mlocked, os_refuses;
 
 void *
 mmap(void *a, size_t len, int pr, int flags, int fd, off_t off)
 {
     int i;
     (void) a; (void) flags; (void) fd; (void) off;
-    if (len > sizeof arena || mapped) {
+    if (len > sizeof arena || mapped || os_refuses) {
+        errno = ENOMEM;
         return MAP_FAILED;
     }
     CHECK(len % P == 0, "mmap length is a whole number of pages");
@@ -167,6 +169,18 @@ VERIF_MAIN
         CHECK(unmapped_ok, "sodium_free unmaps the mapping");
         WITNESS_AT("clean free");
     }
+#elif MODE == 2
+    /* MODE 2 (C20): the mapping is refused by the OS => NULL, nothing mapped, protected or freed; free(NULL) is a no-op */
+    ASSUME(size <= 3 * P + 1);
+    os_refuses = 1;
+    errno = 0;
+    p = (uint8_t *) sodium_malloc(size);
+    CHECK(p == NULL, "sodium_malloc returns NULL when the mapping cannot be obtained");
+    CHECK(errno == ENOMEM, "errno reports the allocation failure");
+    CHECK(!mapped, "nothing stays mapped");
+    sodium_free(p);
+    p = (uint8_t *) sodium_allocarray(size, 1);
+    CHECK(p == NULL && !mapped, "sodium_allocarray fails the same way");
 #else
     /* MODE 1: size limits */
     ASSUME(size >= (uint64_t) SIZE_MAX - 4 * P);
